@@ -93,6 +93,11 @@ func (w *Writer) merge(a, b []*nodeInfo) []*nodeInfo {
 		if depth >= prevDepth && !changed || start == 0 {
 			break
 		}
+		if changed && depth < prevDepth {
+			// the merged nodes have depth prevDepth+1: continue the cascade
+			// from there
+			depth = prevDepth
+		}
 
 		end = start
 		for start > 0 && a[start-1].depth == depth+1 {
